@@ -10,6 +10,7 @@ import (
 	"context"
 	"database/sql"
 	"encoding/json"
+	"errors"
 	"fmt"
 	"os"
 	"sync"
@@ -224,6 +225,64 @@ const (
 	VDWrappedSqlNoRows          = 19
 	VDWrappedSqlTxDone          = 20
 )
+
+// error SHAPES (class VDShaped, code = 10*shape + sentinel): how a sentinel sits inside the error
+const (
+	VDShaped = 23
+
+	VShWrap2     = 0 // two single-%w wrappers
+	VShJoinFirst = 1 // errors.Join(sentinel, other)
+	VShJoinLast  = 2 // errors.Join(other, sentinel)
+	VShMultiW    = 3 // fmt.Errorf("%w ... %w", other, sentinel)
+	VShCustomIs  = 4 // a type whose Is method matches the sentinel (and Timeout() == true)
+
+	VBCanceled = iota - 6
+	VBDeadline
+	VBBreakerUnavailable
+	VBRedisNil // supplied by the redis executor
+	VBSqlNoRows
+	VBSqlTxDone
+)
+
+type verifIsErr struct{ target error }
+
+func (e *verifIsErr) Error() string        { return "verif: i/o timeout" }
+func (e *verifIsErr) Is(target error) bool { return target == e.target }
+func (e *verifIsErr) Timeout() bool        { return true }
+func (e *verifIsErr) Temporary() bool      { return true }
+
+// VerifSentinel returns the sentinel of a base index (nil: not one of the common ones).
+func VerifSentinel(base int64) error {
+	switch base {
+	case VBCanceled:
+		return context.Canceled
+	case VBDeadline:
+		return context.DeadlineExceeded
+	case VBBreakerUnavailable:
+		return ErrServiceUnavailable
+	case VBSqlNoRows:
+		return sql.ErrNoRows
+	case VBSqlTxDone:
+		return sql.ErrTxDone
+	}
+	return nil
+}
+
+// VerifShaped puts the sentinel into the shape.
+func VerifShaped(shape int64, sentinel error) error {
+	other := errors.New("verif: something else")
+	switch shape {
+	case VShWrap2:
+		return fmt.Errorf("verif: outer: %w", fmt.Errorf("verif: inner: %w", sentinel))
+	case VShJoinFirst:
+		return errors.Join(sentinel, other)
+	case VShJoinLast:
+		return errors.Join(other, sentinel)
+	case VShMultiW:
+		return fmt.Errorf("verif: %w and %w", other, sentinel)
+	}
+	return &verifIsErr{target: sentinel}
+}
 
 // VerifWrapped returns the wrapped sentinel of the class (nil for every other class).
 func VerifWrapped(class int64) error {
